@@ -41,6 +41,9 @@ DRIVERS = {
 }
 
 FORM_CT = "application/x-www-form-urlencoded"
+OTHER_HEADERS = ["Connection", "Keep-Alive", "Proxy-Authenticate", "Proxy-Authorization", "TE", "Trailer", "Upgrade",
+                 "Accept-Encoding", "Content-Encoding", "Transfer-Encoding", "X-Forwarded-For", "X-Forwarded-Proto", "Via",
+                 "Accept", "User-Agent", "X-Http-Method-Override", "X-Request-Id", "X-Keep-Signature", "Cache-Control"]
 # Content-Type values a receiver reads as a form / does not read as a form (ASCII only, see notes)
 FORM_VARIANTS = [FORM_CT + "; charset=utf-8", FORM_CT + ";charset=UTF-8", FORM_CT + "; charset", FORM_CT + "; a=1; a=2",
                  " Application/X-WWW-Form-URLencoded ;x", FORM_CT + ",x", FORM_CT + ";", "\t" + FORM_CT.upper() + "\r\n"]
@@ -55,7 +58,7 @@ def channel(case):
     op = case.split(" ", 1)[0]
     if op in ("salt", "twice", "load"):
         return "auth"
-    if op == "legacy":
+    if op in ("legacy", "legacyw", "legacynf"):
         return "ctrl"
     if op in ("prov", "provhttp", "provnc"):
         return "fed"
@@ -332,6 +335,18 @@ def generate(rng, tier):
         remote = _cluster(rng) if rng.random() < 0.9 else _remote(rng)
         m, A, Q, K, T, B, D = _gen_request(rng, remote, home)
         cases.append(f"legacy {hx(remote)} {m} {A} {Q} {K} {T} {B} {D}")
+    for i in range(320 * scale):
+        # the whole forwarding path with further request headers (some of them hop-by-hop headers
+        # proxy.Do drops, some the proxy headers it rewrites); a few with an unconfigured remote
+        remote = _cluster(rng)
+        m, A, Q, K, T, B, D = _gen_request(rng, remote, home)
+        hs = {}
+        for _ in range(rng.choice([0, 1, 2, 3, 4])):
+            n = rng.choice(OTHER_HEADERS)
+            hs[n] = rng.choice(["", "1", "close", "gzip", "10.1.2.3", "https", "http", "1.1 edge", "x y", "é"])
+        H = ",".join(f"{hxc(k)}={hxc(v)}" for k, v in hs.items()) or "-"
+        op = "legacynf" if i % 16 == 15 else "legacyw"
+        cases.append(f"{op} {hx(remote)} {m} {A} {Q} {K} {T} {B} {D} {H}")
     for _ in range(300 * scale):
         remote = _remote(rng)
         toks = [_token(rng, remote, home) for _ in range(rng.choice([0, 1, 1, 1, 2, 2, 3, 4]))]
@@ -429,10 +444,12 @@ def compare(case, impl, model):
     op = case.split(" ", 1)[0]
     if model is None:
         return True
-    if op == "legacy":
+    if op in ("legacy", "legacyw", "legacynf"):
         f = case.split(" ")
         ih, iv = _kv(impl)
         mh, mv = _kv(model)
+        if mh == "notfound" or ih == "notfound":
+            return impl == model
         if mh == "panic":
             return impl.startswith("panic ") and "index out of range" in impl
         if mh == "err":
@@ -458,7 +475,18 @@ def compare(case, impl, model):
             want_cookie = _strip_token_cookie(want_cookie)
         elif mv.get("K") != "same":
             return False
-        return unhxlist(iv.get("K", "-")) == want_cookie
+        if unhxlist(iv.get("K", "-")) != want_cookie:
+            return False
+        if op == "legacy":
+            return True
+        # the remaining outgoing headers, the proxy headers, destination and method
+        if sorted(iv.get("H", "-").split(",")) != sorted(mv.get("H", "-").split(",")):
+            return False
+        if unhxlist(iv["XFF"]) != [unhx(mv["XFF"])] or unhxlist(iv["XFP"]) != [unhx(mv["XFP"])]:
+            return False
+        if unhxlist(iv["VIA"]) != unhxlist(mv["VIA"]):
+            return False
+        return unhx(iv["U"]) == "https://remote.example/arvados/v1/workflows/zrmte-7fd4e-000000000000000" and iv["M"] == f[2]
     if op == "provhttp":
         if not model.startswith("ok "):
             return impl == model
@@ -827,8 +855,10 @@ def oracle(case, impl):
                     return (f"step {n + 1}: remote {dest!r} received {unhxlist(a)!r}, expected the token salted for "
                             f"{dest!r}: ['OAuth2 {want}']")
         return None
-    if op == "legacy":
+    if op in ("legacy", "legacyw"):
         return _oracle_legacy(case, impl)
+    if op == "legacynf":
+        return None if impl == "notfound" else "a request for a remote cluster that is not configured was not refused"
     if op == "load":
         # discovery order named in the property's anchors: header, query, cookie; body separately
         if not impl.startswith("tokens "):
@@ -863,7 +893,7 @@ def nontrivial_key(case, impl):
         return case
     if op in ("prov", "provhttp"):
         return case if f[2] != "-" else None
-    if op == "legacy":
+    if op in ("legacy", "legacyw", "legacynf"):
         return case if _placed_tokens(f[3:8]) else None
     if op == "load":
         return case if _placed_tokens(f[2:7]) else None
@@ -887,8 +917,8 @@ def describe(cases, impl):
     for c, r in zip(cases, impl):
         f = c.split(" ")
         ops[f[0]] = ops.get(f[0], 0) + 1
-        if f[0] in ("legacy", "load"):
-            for fld in (f[4], f[7]) if f[0] == "legacy" else (f[3], f[6]):
+        if f[0] in ("legacy", "legacyw", "load"):
+            for fld in (f[4], f[7]) if f[0] != "load" else (f[3], f[6]):
                 for ch in "=~^":
                     encodings[ch] += fld.count(ch)
         if f[0] in ("prov", "provhttp") and f[2] != "-":
@@ -914,8 +944,8 @@ def describe(cases, impl):
             for s in f[2].split(";"):
                 k = tokkind(unhx(s.split(":")[0]))
                 kinds[k] = kinds.get(k, 0) + 1
-        elif f[0] in ("legacy", "load"):
-            pl = _placed_tokens(f[3:8] if f[0] == "legacy" else f[2:7])
+        elif f[0] in ("legacy", "legacyw", "load"):
+            pl = _placed_tokens(f[3:8] if f[0] != "load" else f[2:7])
             for w, t in pl:
                 placements[w] = placements.get(w, 0) + 1
                 k = tokkind(t)
@@ -931,7 +961,7 @@ def neighbours(case, rng):
     f = case.split(" ")
     out = []
     home = "zhome"
-    if f[0] == "legacy":
+    if f[0] in ("legacy", "legacyw"):
         remote = unhx(f[1])
         for pl in (["oauth2"], ["bearer"], ["basic"], ["query"], ["form"], ["cookie"], None, None):
             m, A, Q, K, T, B, D = _gen_request(rng, remote or "zrmte", home, pl)
